@@ -64,6 +64,8 @@ class World:
                           'default': gen_dt.complete(spec, gen_dt.gen_valid(spec, rng, True), rng)})
             # a read-only persistent parameter without write method (an encoder reading kept over restarts)
             specs[-1]['ro'] = not specs[-1]['write'] and rng.random() < 0.4
+            # an internal parameter (not visible to clients) is kept all the same
+            specs[-1]['hidden'] = rng.random() < 0.25
         return specs
 
     def make_class(self, specs):
@@ -73,7 +75,8 @@ class World:
             name = f'p{i}'
             ns[name] = P.PersistentParam('persistent parameter', self.B.build(s['spec']),
                                          default=gen_dt.to_py(s['spec'], s['default']),
-                                         persistent='auto' if s['auto'] else 'on', readonly=bool(s.get('ro')))
+                                         persistent='auto' if s['auto'] else 'on', readonly=bool(s.get('ro')),
+                                         **({'export': False} if s.get('hidden') else {}))
             if s['write']:
                 def w(self, value, _n=name):
                     if getattr(self, 'offline', False):
